@@ -373,7 +373,7 @@ fn case_sample(t: &mut Tape) -> CaseOut {
 pub fn run(ctx: &Ctx) -> i32 {
     let mut rep = Report::new();
     lattices(&mut rep);
-    run_cases(ctx, &mut rep, "sample", ctx.cases(2_000_000, 200_000_000), case_sample);
+    run_cases(ctx, &mut rep, "sample", ctx.cases(6_000_000, 300_000_000), case_sample);
     crate::c16wire::run_wire(ctx, &mut rep);
     finish(
         Finish {
